@@ -705,7 +705,8 @@ func (n *ExtendsNode) Render(w io.Writer, ctx *RenderContext) error {
 	// Create a new context for the parent template, but with our child blocks
 	// This ensures the parent template knows it's being extended and preserves our blocks
 	parentCtx := NewRenderContext(ctx.env, ctx.context, ctx.engine)
-	parentCtx.extending = true // Flag that the parent is being extended
+	parentCtx.sandboxed = ctx.sandboxed // a sandboxed template stays sandboxed in its parents
+	parentCtx.extending = true          // Flag that the parent is being extended
 
 	// Pass along the parent template as lastLoadedTemplate for relative path resolution
 	parentCtx.lastLoadedTemplate = parentTemplate
@@ -846,6 +847,7 @@ func (n *IncludeNode) Render(w io.Writer, ctx *RenderContext) error {
 
 		// Create a new context
 		includeCtx = NewRenderContext(ctx.env, contextVars, ctx.engine)
+		includeCtx.sandboxed = ctx.sandboxed // includes inside a sandbox stay sandboxed
 		// Set the template as the lastLoadedTemplate for relative path resolutionn			includeCtx.lastLoadedTemplate = template
 		defer includeCtx.Release()
 
@@ -1117,6 +1119,7 @@ func (n *MacroNode) CallMacro(w io.Writer, ctx *RenderContext, args ...interface
 	// Create a new context for the macro
 	macroCtx := NewRenderContext(ctx.env, nil, ctx.engine)
 	macroCtx.parent = ctx
+	macroCtx.sandboxed = ctx.sandboxed // macros called from a sandbox stay sandboxed
 
 	// Ensure context is released even in error paths
 	defer macroCtx.Release()
@@ -1225,6 +1228,7 @@ func (n *ImportNode) Render(w io.Writer, ctx *RenderContext) error {
 
 	// Create a new context for the imported template
 	importCtx := NewRenderContext(ctx.env, nil, ctx.engine)
+	importCtx.sandboxed = ctx.sandboxed // imports inside a sandbox stay sandboxed
 	// Set the template as the lastLoadedTemplate for relative path resolutionn	importCtx.lastLoadedTemplate = template
 
 	// Ensure context is released even in error paths
@@ -1316,6 +1320,7 @@ func (n *FromImportNode) Render(w io.Writer, ctx *RenderContext) error {
 
 	// Create a new context for the imported template
 	importCtx := NewRenderContext(ctx.env, nil, ctx.engine)
+	importCtx.sandboxed = ctx.sandboxed // imports inside a sandbox stay sandboxed
 	// Set the template as the lastLoadedTemplate for relative path resolutionn	importCtx.lastLoadedTemplate = template
 
 	// Ensure context is released even in error paths
